@@ -64,12 +64,14 @@ package acr
 //@     complete [all_iterations_no_early_exit]
 //@   loop 3
 //@     complete [all_iterations_no_early_exit]
+//@     step [every_neighbour_other_than_the_parent_and_the_child_itself_counts_once_towards_the_child_s_up_state] next(nchild) == nchild + (cur.neigh[rangeindex + 1] != prev && cur.neigh[rangeindex + 1] != child ? 1 : 0)
 //@   loop 4
 //@     complete [all_iterations_no_early_exit]
 //@   loop 5
 //@     complete [all_iterations_no_early_exit]
 //@   loop 6
 //@     complete [all_iterations_no_early_exit]
+//@     step [every_neighbour_other_than_the_parent_counts_once_towards_the_final_state_wherever_the_parent_sits_in_the_list] next(nchild) == nchild + (cur.neigh[rangeindex + 1] != prev ? 1 : 0)
 //@   loop 7
 //@     complete [all_iterations_no_early_exit]
 //@   loop 8
